@@ -245,7 +245,7 @@ def select_total(ctx, rule='C12.select-total'):
         vr, ovr = ctx.need('valid-role', 'old-valid-role')
     except AnchorError as e:
         return [unresolved(rule, str(e))]
-    fn = hdr
+    fn = ctx.x(hdr)        # with private helpers folded in (`meta_in(&map, pagesize)`)
     du = ctx.du(fn)
     vedges = _valid_edges(ctx, fn)
     vcalls = calls_to_fn(ctx.facts, fn, vr)
